@@ -260,6 +260,19 @@ def prop_C02(tier):
     return sc + pct_decode(tier) + [o for o in ipv4_kernels(tier) if "fast" in o.name or "number" in o.name] + steps(tier, pick={("clear_port", 0), ("set_port", 2)})
 
 
+def canparse(tier):
+    o = []
+    for n in lens(tier, (0, 3, 8, 9, 10, 11, 12, 14), range(0, 21)):
+        o.append(Obl(f"canparse_fast_n{n}", "canparse_fast.c", [U("vk_can_parse_fast")], defs={"N": n}, unwind=n + 3,
+                     unwindset=["ref_ipv4_parse.2:4", "ref_ipv4_parse.3:4"], witness=(n >= 8), mem_gb=8,
+                     timeout=(200 if tier == Q else 1800), weight=n))
+    return o
+
+
+def prop_C08(tier):
+    return canparse(tier)
+
+
 def prop_C01(tier):
     return scanners(tier)
 
